@@ -268,4 +268,4 @@ def run(ctx):
     import c18
     import c14
     ctx.include(c18.run, ('R18.3',), 'R04.5')
-    ctx.include(c14.run, ('R14.3', 'R14.4'), 'R04.5')
+    ctx.include(c14.run, ('R14.1', 'R14.3', 'R14.4'), 'R04.5')
